@@ -854,6 +854,10 @@ pub fn seal_with(pre: &Snap, action: Option<ProposerAction>, lenient: bool) -> (
             },
         );
         tr.reward = Some(reward);
+    } else {
+        // uncollected tips join the fee pool
+        s.fee_pool = s.fee_pool.saturating_add(s.tips);
+        s.tips = 0;
     }
     s.counts = recount(&s.coins, tips.t906);
     (s, tr)
